@@ -43,6 +43,7 @@ class SymH:
         self._reg(name, lambda m, t=v.t: _num(m, t))
         self._inf_axiom()
         self.st.assume(z3.And(-INF <= v.t, v.t <= INF) if inf else z3.And(-INF < v.t, v.t < INF))
+        self.st.value_terms.append(v.t)
         return v
 
     def _inf_axiom(self):
@@ -183,10 +184,23 @@ class SymH:
                 if ret in ('real', 'xreal'):
                     H._inf_axiom()
                     I.st.assume(z3.And(-INF < t, t < INF) if ret == 'real' else z3.And(-INF < t, t <= INF))
+                    I.st.value_terms.append(t)
                 return SV(t, 'real' if ret == 'xreal' else ret)
             if ret == 'opaque':
                 f = H._uf(name + '!truthy', sig, z3.BoolSort())
                 return SOpaque(name, f(*enc) if enc else f())
+            if ret in ('same', 'same_nd') and Mo.seq_items(I, args[0]) is not None:
+                # concrete length: componentwise scalar functions (quantifier-free encoding)
+                nn = len(Mo.seq_items(I, args[0]))
+                out = []
+                for j in range(nn):
+                    fj = H._uf('%s!e%d' % (name, j), sig, z3.RealSort())
+                    t = fj(*enc)
+                    H._inf_axiom()
+                    I.st.assume(z3.And(-INF < t, t < INF))
+                    I.st.value_terms.append(t)
+                    out.append(SV(t, 'real'))
+                return I.st.alloc('clist', out, name=name + '_res', nd=(ret == 'same_nd'))
             if ret in ('list', 'same', 'ndarray', 'same_nd'):
                 fa = H._uf(name + '!arr', sig, z3.ArraySort(z3.IntSort(), z3.RealSort()))
                 H._inf_axiom()
@@ -234,13 +248,18 @@ class SymH:
             return [zreal(a)] if k == 'real' else [z3.ToReal(zint(a))]
         if Mo.is_list(a) or isinstance(a, tuple):
             items = Mo.seq_items(self.I, a)
-            if items is not None and any(numkind(x) is None for x in items):
-                out = []
+            if items is None and isinstance(a, Ref) and a.kind == 'slist':
+                items = Mo.concrete_iter(self.I, a)
+            if items is not None:
+                out = [z3.IntVal(len(items))]
                 for x in items:
                     out.extend(self._encode(x))
                 return out
             ln, arr, ek = Mo.to_slist(self.I, a)
             arr = Mo._coerce_arr(arr, ek, 'real')
+            # canonical form: entries outside [0,len) do not matter to the callable
+            kk = z3.Int('k!n')
+            arr = z3.Lambda([kk], z3.If(z3.And(kk >= 0, kk < ln), z3.Select(arr, kk), z3.RealVal(0)))
             return [ln, arr]
         return []      # non-numeric arguments (objects, callables, strings) do not enter the UF
 
@@ -544,7 +563,10 @@ class NativeH:
                 v = float(v)
         if self.infval is not None and not isinstance(v, list) and Fraction(v) == Fraction(self.infval):
             return float('inf')
-        return float(v)
+        try:
+            return float(v)
+        except OverflowError:
+            return 1e308 if v > 0 else -1e308
 
     def _rnd_real(self, inf=False):
         r = self.rng or _random
@@ -733,10 +755,17 @@ class NativeH:
             if isinstance(a, (int, float)) and not isinstance(a, bool):
                 enc.append(self._z3num(a))
             elif isinstance(a, (list, tuple)) and all(isinstance(x, (int, float)) for x in a):
-                arr = z3.K(z3.IntSort(), z3.RealVal(0))
-                for k, x in enumerate(a):
-                    arr = z3.Store(arr, k, self._z3num(x))
-                enc.extend([z3.IntVal(len(a)), arr])
+                if (name + '!e0') in sh.ufs or any(u.startswith(name + '!') and sh.ufs[u][1][0] and
+                                                   all(srt != z3.ArraySort(z3.IntSort(), z3.RealSort()) for srt in sh.ufs[u][1][0])
+                                                   for u in sh.ufs) or \
+                        (name in sh.ufs and all(srt != z3.ArraySort(z3.IntSort(), z3.RealSort()) for srt in sh.ufs[name][1][0])):
+                    enc.append(z3.IntVal(len(a)))
+                    enc.extend(self._z3num(x) for x in a)
+                else:
+                    arr = z3.K(z3.IntSort(), z3.RealVal(0))
+                    for k, x in enumerate(a):
+                        arr = z3.Store(arr, k, self._z3num(x))
+                    enc.extend([z3.IntVal(len(a)), arr])
         try:
             for ex in raises:
                 uf = sh.ufs.get(name + '!raises_' + ex)
@@ -755,6 +784,9 @@ class NativeH:
                 if uf is None:
                     return None
                 return bool(z3.is_true(m.eval(uf[0](*enc) if enc else uf[0](), model_completion=True)))
+            if ret in ('same', 'same_nd') and (name + '!e0') in sh.ufs:
+                n = len(list(args[0]))
+                return [self._flt(_num(m, sh.ufs['%s!e%d' % (name, j)][0](*enc))) for j in range(n)]
             if ret in ('list', 'same', 'ndarray', 'same_nd'):
                 ufa = sh.ufs.get(name + '!arr')
                 if ufa is None:
